@@ -128,6 +128,9 @@ def evaluate(case, engine, acc=None):
             if f['oracle'] in ('C05.model', 'P1'):
                 f = dict(f, msg=f'variant {tag}: ' + f['msg'])
                 fs.append(f)
+            elif f['oracle'] == 'C03.model':
+                # "every solved value ... is a function of year, forms and input values alone": the model is that function
+                fs.append(dict(f, property=ID, oracle='C05.values', msg=f'variant {tag}: ' + f['msg']))
         if (run.outcome == 'abort') != (r1.verdict == 'abort'):
             fs.append(simrun.F(ID, 'C05.abort', 'abort-ness', f'variant {tag}: run {run.outcome} {run.exc}, model {r1.verdict} {r1.summary()["aborts"]}'))
     # runs with equal final inputs against each other (independent of the model)
